@@ -48,6 +48,9 @@ pub fn golden() -> ClassFile {
 		CpInfo::InvokeDynamic { bootstrap_method_attr_index: 0x0c01, name_and_type_index: 0x0c02 },
 		CpInfo::Module { name_index: 0x0d01 },
 		CpInfo::Package { name_index: 0x0e01 },
+		// two-slot entries (JVMS indices 44-45 and 46-47), last so that no index used below moves
+		CpInfo::Long { high_bytes: 0x0f010203, low_bytes: 0x0f040506 },
+		CpInfo::Double { high_bytes: 0x10010203, low_bytes: 0x10040506 },
 	]);
 	let vtis = vec![
 		VerificationTypeInfo::Top {}, VerificationTypeInfo::Integer {}, VerificationTypeInfo::Float {},
